@@ -106,7 +106,7 @@ def func_mapper(a, b, c):
     from props.C01 import build as build_c01
     for m01 in build_c01(tier, seed).modules:
         if m01.key == "c01_omit":
-            m01.obs = [o for o in m01.obs if o.name in ("typeddict_optional_keys_rt", "first_optional_rt")]
+            m01.obs = [o for o in m01.obs if o.name in ("typeddict_optional_keys_rt", "first_optional_rt", "omit_default_rt_emptied")]
             mods.append(m01)
     return Plan("C03", mods, assumptions=["field loaders/dumpers are stubs honouring the loader contract (assume-guarantee)",
                                           "nested unknown keys are compared after pruning empty sub-mappings (the docs fix names, not the nesting of empties)"],
